@@ -64,7 +64,13 @@ func (monitor) op(r *FnRun, st *State, x *ssa.Call, k lockOpKind, args []Val) Va
 		return nil
 	}
 	switch k {
-	case lkInit, lkSignal:
+	case lkInit:
+		return ret()
+	case lkSignal:
+		// ghost(signals): number of Signal/Broadcast calls issued by this invocation
+		if strings.HasSuffix(x.Call.StaticCallee().Name(), "Signal") || strings.HasSuffix(x.Call.StaticCallee().Name(), "Broadcast") {
+			r.ghostInc(st, "signals", True)
+		}
 		return ret()
 	}
 	mv := x.Call.Args[0]
@@ -108,6 +114,13 @@ func (monitor) op(r *FnRun, st *State, x *ssa.Call, k lockOpKind, args []Val) Va
 			r.addGoal(st, "lock.held-at-wait"+site, r.posOf(x), False, nil)
 		}
 		r.release(st, decl, key, "wait"+site, x)
+		if decl != nil {
+			// what this thread did to the protected state before going to sleep
+			env := r.lockEnv(st)
+			for i, c := range decl.WaitInv {
+				r.addGoal(st, "waitinv."+clauseLabel(c, i)+"@wait"+site, r.posOf(x), env.evalBool(c.E), c.Props)
+			}
+		}
 		r.acquire(st, decl, key)
 	}
 	return ret()
@@ -120,6 +133,18 @@ func (r *FnRun) lockEnv(st *State) *Env {
 		if o, ok := st.ghost["lockowner:"+l.Type+"."+l.Field].(Term); ok {
 			env.vars["self"] = o
 			env.vtypes["self"] = st.ghost["lockownertype:"+l.Type+"."+l.Field].(types.Type)
+		} else if _, have := env.vars["self"]; !have && r.Fn != nil && r.Fn.Pkg != nil {
+			// no lock operation on this path yet: the owner object is unknown
+			if obj := r.Fn.Pkg.Pkg.Scope().Lookup(l.Type); obj != nil {
+				key := "unknownowner:" + l.Type
+				o, ok := st.ghost[key].(Term)
+				if !ok {
+					o = st.declare(r.freshName("unknown_"+l.Type), BV(PtrW, false))
+					st.ghost[key] = o
+				}
+				env.vars["self"] = o
+				env.vtypes["self"] = types.NewPointer(obj.Type())
+			}
 		}
 	}
 	return env
